@@ -117,6 +117,20 @@ def check_inputs(net, spec, res, ops=None):
         sd = new_sd(net)
         res["evals"] += 1
         vio += monitored(net, lambda: apply(sd, q), res, case)
+    # the numeric configuration fields at their smallest values (work bounds must hold for every option / limit combination)
+    for cfg in ({"minimum_simulation_budget": 0}, {"minimum_simulation_budget": 1}, {"retained_set_optimization_threshold": 0},
+                {"retained_set_optimization_threshold": 1}, {"nfvs_size_threshold": 0}, {"attractor_candidates_limit": 2},
+                {"minimum_simulation_budget": 0, "retained_set_optimization_threshold": 1}):
+        for ops in ((("seeds", 0),), (("cand", 0, True, True),), (("bfs", None, None, None), ("allseeds",))):
+            case = {"net": list(spec), "config": cfg, "ops": [list(o) for o in ops]}
+            sd = new_sd(net, cfg)
+            res["evals"] += 1
+
+            def g():
+                s2 = sd
+                for o in ops:
+                    s2, _ = apply(s2, o)
+            vio += monitored(net, g, res, case, cfg)
     # symbolic fallback on stub root and on expanded root
     for pre in ((), (("succ", 0),)):
         case = {"net": list(spec), "ops": [list(o) for o in pre] + ["fallback(0)"]}
@@ -189,7 +203,14 @@ def replay(case):
         else:
             pre.append(tuple(tuple(map(tuple, x)) if isinstance(x, list) and x and isinstance(x[0], list) else (tuple(x) if isinstance(x, list) else x) for x in o))
     out = []
-    sd = new_sd(net)
+    cfg = case.get("config")
+    sd = new_sd(net, cfg)
+    if cfg is not None:
+        def g():
+            s2 = sd
+            for o in pre:
+                s2, _ = apply(s2, o)
+        return monitored(net, g, res, case, cfg)
     for op in pre:
         out += monitored(net, lambda: apply(sd, op), res, case)
     if last == "sets(all)":
